@@ -4,7 +4,7 @@ Observed: sketch state (V, l, t, stored inverse roots) after every FD step of
   A. distributed_shampoo._fd_update_root fed by frequent_directions_update (direct, float64),
   B. Tearfree Sketchy through its public gradient transformation (float32),
   C. the OCO sketches (S_ADA / ADA_FD, float64),
-  D. the packed sketches inside distributed_shampoo state after public updates (float32).
+  D. the packed sketches inside distributed_shampoo state after public updates (float32; jit and 2-device pmap).
 Oracle: the monitor keeps the exact b-discounted covariance C (plus the per-step ridge the
 configuration adds on the sketch span, tracked exactly) and checks
   V'V diagonal 0/1, l >= 0, t >= 0, S <= C <= S + t I (PSD order), t' = b t + rho with rho the
@@ -45,7 +45,7 @@ def shards(tier, seed):
   for i in range(2):
     out.append({"name": "C%d" % i, "env": {"x64": True}, "driver": "C", "n": n * 3, "budget_s": 1200 if tier == "quick" else 6500})
   for i in range(4):
-    out.append({"name": "D%d" % i, "env": {"x64": False}, "driver": "D", "n": n, "budget_s": 1200 if tier == "quick" else 6500})
+    out.append({"name": "D%d" % i, "env": {"x64": False, "devices": 2}, "driver": "D", "n": n, "budget_s": 1200 if tier == "quick" else 6500})
   return out
 
 
@@ -321,7 +321,7 @@ def gen_D(rng, tier):
     trees = [{"a": [8, 8]}, {"a": [6, 6], "b": [6, 6]}, {"a": [7, 7, 7]}, {"a": [8]}, {"a": [16, 8]}]
   else:
     trees = [{"a": [9, 6]}, {"a": [8, 6], "b": [7]}, {"a": [6, 5, 7]}, {"a": [12, 8]}]
-  return {"driver": "D", "tree": trees[int(rng.integers(0, len(trees)))], "uniform": uniform, "k": int(rng.choice([1, 2])), "b": float(rng.choice([1.0, 0.999, 0.9])),
+  return {"driver": "D", "tree": trees[int(rng.integers(0, len(trees)))], "uniform": uniform, "pmap2": bool(rng.random() < 0.35), "k": int(rng.choice([1, 2])), "b": float(rng.choice([1.0, 0.999, 0.9])),
           "eps": float(rng.choice([0.0, 1e-6])), "interval": int(rng.choice([1, 1, 2])), "fam": FAMS[int(rng.integers(0, len(FAMS)))],
           "T": int(rng.integers(3, 9 if tier == "quick" else 21)), "hseed": int(rng.integers(0, 2 ** 31))}
 
@@ -339,7 +339,8 @@ def check_D(c, rec):
               statistics_compute_steps=c["interval"], start_preconditioning_step=1, learning_rate=0.1)
   params = {k: np.zeros(tuple(s), np.float32) for k, s in tree.items()}
   try:
-    run = H.Runner(cfgd, params, "jit", 1)
+    # pmap2: data-parallel over two devices, each replica owns a slice of the statistics (and of the sketches)
+    run = H.Runner(cfgd, params, "pmap", 2) if c.get("pmap2") else H.Runner(cfgd, params, "jit", 1)
   except Exception as e:  # pylint: disable=broad-except
     kind, where = H.classify_exception(e)
     if kind == "reject":
@@ -347,6 +348,7 @@ def check_D(c, rec):
       return
     rec.violation("crash:" + where, "init raised %s: %s" % (type(e).__name__, str(e)[:200]), wit)
     return
+  rec.count("cases_D_pmap2" if c.get("pmap2") else "cases_D_jit")
   # per leaf: list of (block slice, axis, size)
   layout = {}
   sizes_all = []
